@@ -96,6 +96,29 @@ def check_template_constancy(rep, rule):
     return n
 
 
+def check_escape_total(rep, rule):
+    """html_escape() only accepts text: in to_escaped_dict every call is either an *attempt* (under an Exception handler
+    with a fallback) or applied to the result of a text constructor (repr / str / format).  Otherwise a bytes or other
+    non-text field raises TypeError inside the renderer and inside its fallback."""
+    repo = rep.repo
+    err = repo.mod(ERR)
+    ted = err.cls('HTTPException').methods['to_escaped_dict']
+    n = 0
+    for c in walk_body(ted.node):
+        if isinstance(c, ast.Call) and call_name(c) == 'html_escape' and c.args:
+            n += 1
+            a = c.args[0]
+            texty = isinstance(a, ast.Call) and isinstance(a.func, ast.Name) and a.func.id in ('repr', 'str', 'unicode', 'format', 'ascii')
+            h = protected_by(ted, c, 'TypeError')
+            guarded = h is not None and not any(isinstance(x, ast.Raise) for x in ast.walk(h))
+            rep.check(rule, fkey(ted, c), texty or guarded,
+                      'html_escape(%s) is %s' % (short(a, 30), 'applied to constructed text' if texty else 'an attempt with a fallback') if texty or guarded else
+                      'html_escape(%s) is neither guarded nor applied to constructed text: a bytes / non-text field makes every HTML and XML '
+                      'error rendering (and the default-rendering fallback) raise TypeError' % short(a, 40), err, c)
+    if n < 1:
+        raise AnalysisError('to_escaped_dict: html_escape calls not found')
+
+
 def run(rep):
     repo = rep.repo
     err = repo.mod(ERR)
@@ -285,6 +308,7 @@ def run(rep):
         raise AnalysisError('only %d to_html/to_xml methods found (floor 4)' % n_sinks)
     if check_template_constancy(rep, 'R09.c') < 3:
         raise AnalysisError('format sinks in the to_* serialisers not found')
+    check_escape_total(rep, 'R09.c')
     rep.floor('R09.c', 8)
 
     # ---- R09.d -----------------------------------------------------------
